@@ -101,7 +101,7 @@ Definition num_of_text (t : text) (p : option N) (m : mode) : res num :=
     else if (c0 =? 45) && nonempty && all_c is_digit ds then                        (* -digits *)
       let v := parse_base 10 ds 0 in
       if 32768 <? v then VTE
-      else Ok {| n_int := v; n_neg := true; n_hint := h0; n_mode := m |}
+      else Ok {| n_int := v; n_neg := negb (v =? 0); n_hint := h0; n_mode := m |}     (* -0 is zero: repair F53 *)
     else VTE
   end.
 
